@@ -40,10 +40,14 @@
 
 #ifdef VF_THOROUGH
 #define NFUN 5      // datum length bound for the quoting functions
-#define NREC 4      // datum length bound for whole records
+#define NURL 3      // ... for rfc1738_do_escape (about 22 byte classes: it tests the unsafe characters one by one)
+#define NREC 4      // datum length bound for whole records (quoted-string and shell layouts)
+#define NRECM 3     // ... mime-blob layouts (the c2x[] hex table lookups are expensive solver queries)
 #else
 #define NFUN 4
+#define NURL 2
 #define NREC 3
+#define NRECM 2
 #endif
 
 // ---------------------------------------------------------------- reference readers / un-quoters
@@ -102,11 +106,11 @@ static Field readMimeBlob(const char *q, unsigned i)
     return f;
 }
 
-// URL-quoted token: ends at whitespace or end of text; %XX escapes
-static Field readUrlToken(const char *q, unsigned i, const bool decode)
+// URL-quoted token: ends at whitespace (or at '"' when the logformat put it inside "...") or end of text; %XX escapes
+static Field readUrlToken(const char *q, unsigned i, const bool decode, const bool insideQuotes = false)
 {
     Field f; f.n = 0; f.ok = true;
-    for (; q[i] && !isWs((unsigned char)q[i]);) {
+    for (; q[i] && !isWs((unsigned char)q[i]) && !(insideQuotes && q[i] == '"');) {
         unsigned char c = (unsigned char)q[i];
         if (c == '%' && decode) {
             const int h = hexv((unsigned char)q[i + 1], true), l = h < 0 ? -1 : hexv((unsigned char)q[i + 2], true);
@@ -195,7 +199,7 @@ extern "C" void c34_mimeblob_printable(void) { mimeblob(NFUN, true); }
 extern "C" void c34_username(void)
 {
     vf_quiet();
-    unsigned n; char *d = datum(0, NFUN, n);
+    unsigned n; char *d = datum(0, NFUN - 2, n);
     // KNOWN-FINDING candidate: Format::QuoteUrlEncodeUsername ("Safely URL-encode a username") is QuoteMimeBlob, which leaves
     // a space (0x20) raw. The built-in squid/common/combined/icap log formats print the user name as a bare, space-delimited
     // field, so a user name containing a space ("foo bar" is a legal Basic/Digest user name) adds a field to the record.
@@ -239,7 +243,7 @@ extern "C" void c34_quoted_string(void)
 extern "C" void c34_url(void)
 {
     vf_quiet();
-    unsigned n; char *d = datum(0, NFUN, n);
+    unsigned n; char *d = datum(0, NURL, n);
     const char *q = rfc1738_escape(d);
     const unsigned ql = strlen(q);
     vf_observe("ql", ql);
@@ -305,27 +309,27 @@ static const Layout layouts[] = {
     {"x \"%#>h\" y", 'U', "url"},         // explicit modifier overrides the toggled one
 };
 
-static AccessLogEntry *rawAle()
-{
-    // AccessLogEntry without its constructor chain (HierarchyLogEntry, timers, ...): zeroed memory; only headers.request is read
-    AccessLogEntry *al = static_cast<AccessLogEntry *>(xcalloc(1, sizeof(AccessLogEntry)));
-    al->lock();  // never destroyed
-    return al;
-}
+// AccessLogEntry without its constructor chain (HierarchyLogEntry, timers, ...): zeroed memory; %>h reads only headers.request
+// (and icap.reqMethod == methodNone). No vtable pointer exists in such a block, so the RefCount<> handed to assemble() is
+// fabricated as well (a RefCount is one raw pointer); nothing locks, unlocks or destroys the entry.
+struct RawPointer { AccessLogEntry *p; };
+static_assert(sizeof(RawPointer) == sizeof(AccessLogEntry::Pointer), "RefCount is a single pointer");
 
 static void record(const unsigned first, const unsigned last)
 {
     vf_quiet();
     const unsigned li = first + (unsigned)vf_concretize(vf_range(0, last - first, "layout"));
     const Layout &L = layouts[li];
-    unsigned n; char *d = datum(1, NREC, n);   // an empty datum is logged as "-"
+    const unsigned maxLen = (L.kind == 'd' || L.kind == 'u' || L.kind == 'U') ? NURL : L.kind == 'm' ? NRECM : NREC;
+    unsigned n; char *d = datum(1, maxLen, n);   // an empty datum is logged as "-"
     if (L.kind == 's')
         vf_assume(!hasUnquotedShellSeparator(d, n)); // KNOWN-FINDING candidate: see c34_shell
     Format::Format fmt("c34");
     const bool parsed = fmt.parse(L.def);
     vf_assert(parsed, "logformat definition accepted");
-    AccessLogEntry::Pointer al(rawAle());
-    al->headers.request = d;
+    RawPointer raw = { static_cast<AccessLogEntry *>(xcalloc(1, sizeof(AccessLogEntry))) };
+    raw.p->headers.request = d;
+    const AccessLogEntry::Pointer &al = *reinterpret_cast<const AccessLogEntry::Pointer *>(&raw);
     MemBuf mb; mb.init();
     fmt.assemble(mb, al, 0);
     const char *r = mb.content();
@@ -341,7 +345,7 @@ static void record(const unsigned first, const unsigned last)
     case 'm': vf_assert(r[i] == '[', "opening bracket"); f = readMimeBlob(r, i + 1);
         vf_assert(f.ok && r[f.end] == ']', "bracketed field ends at a bracket"); f.end += 1; break;
     case 'u': f = readUrlToken(r, i, true); vf_assert(f.ok, "URL-quoted field well-formed"); break;
-    case 'U': vf_assert(r[i] == '"', "opening quote"); f = readUrlToken(r, i + 1, true);
+    case 'U': vf_assert(r[i] == '"', "opening quote"); f = readUrlToken(r, i + 1, true, true);
         vf_assert(f.ok && r[f.end] == '"', "URL-quoted field inside quotes ends at the closing quote"); f.end += 1; break;
     case 's': f = readShellWord(r, i); vf_assert(f.ok, "shell word well-formed"); break;
     default: f = readUrlToken(r, i, false); vf_assert(f.ok, "default-quoted field well-formed"); break;
